@@ -29,6 +29,54 @@ def run(res, args):
     res.distinct = set(range(nrows))
     res.samples = [{'published_row': r} for r in reg['tables'][next(iter(reg['tables']))]['rows'][:3]]
     hp = b.harness('parse.c')
+
+    # ---- the published assignments as the LOOK-UP FUNCTIONS of the current build answer them (a changed
+    # search routine loses a row as surely as a changed table): every published namespace row both ways,
+    # every published tag row decoded from a minimal document and encoded in its own page, every
+    # published extension value; expected answers computed from the pinned registry alone
+    ht = b.harness('tbl.c')
+    RT = reg['tables']
+    look, expect = [], []
+    for l in reg['langs']:
+        lid = l['id']
+        if l['ns'] is not None:
+            rows = RT[str(l['ns'])]['rows']
+            for r in rows:
+                first_ns = next(x for x in rows if x[1] == r[1])
+                look.append(f'TBL PAGENS {lid} {r[1]}'); expect.append('NS ' + first_ns[0])
+                first_pg = next(x for x in rows if x[0] == r[0])
+                look.append(f'TBL NSPAGE {lid} {r[0]}'); expect.append(f'PAGE {first_pg[1]}')
+        if l['exts'] is not None:
+            rows = RT[str(l['exts'])]['rows']
+            for r in rows:
+                first = next(x for x in rows if x[0] == r[0])
+                look.append(f'TBL EXTENC {lid} {r[0]}'); expect.append(f'ROW {first[1]}')
+        if l['tags'] is not None:
+            rows = RT[str(l['tags'])]['rows']
+            for r in rows:
+                first = next(x for x in rows if x[0] == r[0] and x[1] == r[1])
+                look.append(f'TBL TAGENC {lid} {r[1]} {r[0]}'); expect.append(f'ROW {first[1]} {first[2]} {first[0]}')
+    ans, _ = corr.run_lines(ht, look, env=b.env())
+    # decoding direction: a minimal document per published tag row
+    dec, dexp = [], []
+    for l in reg['langs']:
+        if l['tags'] is None:
+            continue
+        rows = RT[str(l['tags'])]['rows']
+        for r in rows:
+            first = next(x for x in rows if x[1] == r[1] and x[2] == r[2])
+            page, tok = r[1], r[2]
+            doc = bytes([3]) + mb(1) + mb(106) + mb(0) + (b'\x00' + bytes([page]) if page else b'') + bytes([tok])
+            dec.append(f'PARSE {l["id"]} 0 {doc.hex()}'); dexp.append(f't:{page}:{tok}:{first[0]}')
+    dans, _ = corr.run_lines(hp, dec, env=b.env())
+    lookup_bad = [(q, e, a) for q, e, a in zip(look, expect, ans) if a != e]
+    lookup_bad += [(q, e, (a or '')[:160]) for q, e, a in zip(dec, dexp, dans) if not a or f'SE {e}' not in a]
+    res.coverage['published_rows_asked_of_the_lookup_functions'] = len(look) + len(dec)
+    res.evaluations += len(look) + len(dec)
+    for q, e, a in lookup_bad[:5]:
+        res.violation({'kind': 'published-row-lookup', 'request': q, 'published_answer': e, 'current_build_answers': a,
+                       'explain': 'the table data still carries the published row, but the look-up routine of the current build no longer finds it (or finds another one)'},
+                      'lookup-' + '-'.join(q.split()[1:4]))
     for f in fails[:5]:
         replay = {'kind': 'registry-row', 'item': f, 'failing_theorems': failing,
                   'explain': 'this published assignment is no longer understood identically by the current tables'}
